@@ -162,10 +162,7 @@ class Env:
             return "transport"
         if cur is self.closer:
             return "closer"
-        for i, th in enumerate(getattr(self, "threads", [])):
-            if cur is th:
-                return "caller"
-        return "other"
+        return "caller" if cur in getattr(self, "threads", []) else "other"
 
     def hook(self, name):
         by = self.role()
@@ -320,10 +317,14 @@ class Env:
                 cur = threading.current_thread()
                 if cur in self.threads and cur not in self.mid_arrived:
                     self.mid_arrived.append(cur)
+                    # ensure_session is held after its SERVICE_REQUEST went out (MidPoint = es_sleep)
+                    after = family(self.callers[self.threads.index(cur)][0]) == "srtauth"
+                    r = orig(*a, **kw) if after else None
                     self.log({"ev": "Hook", "name": "mid_" + name, "by": "caller", "active": self.active()})
                     if len(self.mid_arrived) == len(self.callers):
                         self.reached.set()
                     self.resume.wait(20)
+                    return r if after else orig(*a, **kw)
                 return orig(*a, **kw)
             return wrapper
         for name in want:
@@ -658,9 +659,8 @@ class ProxyEnv:
         self.build()
         n = len(self.callers)
         if self.plan == "before":
-            # the server does not answer: it is told to stop reading by holding its socket's peer? it simply
-            # never sees requests that need an answer it would give late: requests here are answered, so only
-            # calls that block without a peer action are used before the loss
+            # the server behind the proxy answers requests at once, so only calls that block without any peer
+            # action (recv, recv_stderr, recv_exit_status, send with no window) make sense before the loss
             for i in range(n):
                 self.start_call(i)
             for i in range(n):
